@@ -36,6 +36,7 @@ type cbInst struct {
 	bus     EventBus.Bus
 	events  [][2]int
 	alive   bool
+	mute    bool // its heart-beats no longer reach the bucket, the process goes on
 	joinIdx int
 }
 
@@ -57,7 +58,21 @@ func init() {
 	scenarios["c10_cb"] = func(raw json.RawMessage) *vrt.Scenario {
 		var p CBParams
 		_ = json.Unmarshal(raw, &p)
-		return &vrt.Scenario{Name: "c10_cb", Main: func() { cbMain(p) }, FreeChoices: true, MaxSteps: 2_000_000, NoTimerAlt: true}
+		sc := &vrt.Scenario{Name: "c10_cb", Main: func() { cbMain(p) }, FreeChoices: true, MaxSteps: 2_000_000, NoTimerAlt: true}
+		if p.Event == "hblost" {
+			// an instance whose heart-beats no longer reach the bucket finds itself missing from the group: it
+			// must stop (fail-stop) rather than go on streaming the share of a numbering that is no longer valid
+			sc.Classify = func(r *vrt.Result) []string {
+				if r.Status == vrt.StatusCrash && strings.Contains(r.Crash.Value, "self") {
+					return nil
+				}
+				if r.Status != vrt.StatusOK {
+					return []string{"status " + r.Status.String()}
+				}
+				return nil
+			}
+		}
+		return sc
 	}
 	scenarios["c10_sd"] = func(raw json.RawMessage) *vrt.Scenario {
 		return &vrt.Scenario{Name: "c10_sd", Main: sdMain, FreeChoices: true, MaxSteps: 2_000_000, NoTimerAlt: true}
@@ -88,6 +103,7 @@ func init() {
 					out = append(out, Instance{Scenario: "c10_cb", Params: mustJSON(CBParams{Initial: n, Event: ev, Perms: q}), Bound: 0, Shards: 8})
 				}
 			}
+			out = append(out, Instance{Scenario: "c10_cb", Params: mustJSON(CBParams{Initial: 3, Event: "hblost", Perms: 1}), Bound: 0, Shards: 4, Note: "the heart-beats of one running instance no longer reach the bucket"})
 			for tm := 1; tm <= 2; tm++ {
 				for _, ev := range []string{"join", "die"} {
 					out = append(out, Instance{Scenario: "c10_cb", Params: mustJSON(CBParams{Initial: 2, Event: ev, Perms: 1, Timing: tm}), Bound: 0, Shards: 2, Note: "heart-beat interval + tolerance that is not a whole number of seconds / below one second"})
@@ -149,7 +165,9 @@ func cbMain(p CBParams) {
 		vrt.Sleep(30 * time.Second)
 		l := live()
 		for _, in := range l {
-			couchbase.VerifCBHeartbeat(in.m)
+			if !in.mute {
+				couchbase.VerifCBHeartbeat(in.m)
+			}
 		}
 		order := make([]int, len(l))
 		for i := range order {
@@ -215,6 +233,11 @@ func cbMain(p CBParams) {
 	case "join":
 		join()
 		hist = append(hist, "join")
+	case "hblost":
+		l := live()
+		v := l[vrt.Choose(len(l), true, "victim")]
+		v.mute = true
+		hist = append(hist, fmt.Sprintf("heartbeats-lost(%d)", v.joinIdx))
 	case "die", "leave":
 		l := live()
 		v := l[vrt.Choose(len(l), true, "victim")]
